@@ -102,8 +102,9 @@ pub fn check(c: &Case) -> Verdict {
             }
         } else {
             let wd = split_stdout(&whole.stdout_text()).data;
-            if wd.lines().all(|l| l.starts_with("height: ")) {
-                let slice: String = wd.lines().filter(|l| l[8..].split(' ').next().and_then(|h| h.parse::<u64>().ok()).map(|h| h >= s && h <= e).unwrap_or(false)).map(|l| format!("{}\n", l)).collect();
+            let wl: Vec<&str> = wd.split_terminator('\n').collect();
+            if wl.iter().all(|l| l.starts_with("height: ")) {
+                let slice: String = wl.iter().filter(|l| l[8..].split(' ').next().and_then(|h| h.parse::<u64>().ok()).map(|h| h >= s && h <= e).unwrap_or(false)).map(|l| format!("{}\n", l)).collect();
                 if slice != so.data {
                     return Verdict::Fail(format!("opreturn text of range {}..={} is not the slice of the whole-chain text: {}", s, e, vpmodel::oracle::first_diff(&slice, &so.data)));
                 }
